@@ -660,6 +660,9 @@ class World:
     def proc_read(self, p, tail, tid, path):
         """Content at read() time for an already opened file of incarnation p."""
         live = self.procs.get(p.pid) is p or (tid is not None and self.tids.get(tid) is p)
+        if live and getattr(p, "dying", False):
+            # a task that is exiting: its /proc entries can still be opened, every read answers ESRCH
+            raise oserr(errno.ESRCH, path)
         if not live:
             if tail == "environ":
                 return b""
